@@ -234,7 +234,7 @@ func sleepMs(n int) { time.Sleep(time.Duration(n) * time.Millisecond) }
 // JSON carry them); fractional values stay float64. The reference model keeps
 // working on the float64 image, which denotes the same numbers.
 func nativize(c *fw.Case, rows []any, col string) {
-	kind := c.Intn(10)
+	kind := c.Intn(11)
 	for _, r := range rows {
 		m, ok := r.(map[string]any)
 		if !ok {
@@ -281,6 +281,12 @@ func nativize(c *fw.Case, rows []any, col string) {
 				m[col] = uint32(f)
 			} else {
 				m[col] = int64(f)
+			}
+		case 10:
+			if f >= 0 {
+				m[col] = uint(f)
+			} else {
+				m[col] = int32(f)
 			}
 		case 0:
 			m[col] = int(f)
